@@ -46,11 +46,13 @@ def split_encapsulation(t, rng):
     return t[:m.start()] + ''.join(blocks) + t[m.end():]
 
 
-def to1x(text, version, rng, respell_math=False):
+def to1x(text, version, rng, respell_math=False, math_cmeta=False):
     t = text.replace('http://www.cellml.org/cellml/2.0#', NS[version])
     t = t.replace('<model xmlns=', '<model xmlns:cmeta="http://www.cellml.org/metadata/1.0#" xmlns=', 1)
     t = re.sub(r' id="', ' cmeta:id="', t)
-    t = re.sub(r'(<math [^>]*?) cmeta:id="', r'\1 id="', t)      # ids of MathML elements stay MathML ids
+    if not math_cmeta:
+        t = re.sub(r'(<math [^>]*?) cmeta:id="', r'\1 id="', t)      # ids of MathML elements stay MathML ids
+    # (with math_cmeta the math elements carry cmeta:id, as 1.x models do: the prefix is declared on the model element only)
     # interfaces
     def iface(m):
         v = m.group(1)
